@@ -228,6 +228,100 @@ def exec_transport(ctx, case: Dict[str, Any]) -> None:
                sample={"case": case, "delivered": got, "written_back": rej})
 
 
+def exec_wrapper_handshake(ctx, case: Dict[str, Any]) -> None:
+    """The negotiated version must reach the stdio reader through every public way of doing the handshake:
+    stdio_client_with_initialize, connect_to_server(StdioParameters) / MCPClient, StdioTransport + MCPClient."""
+    import asyncio
+    import importlib
+    import anyio
+    from vf.recorders import OpenProcessPatch, ScriptedProcess
+    from vf.vloop import run_virtual
+    from chuk_mcp.transports.stdio.parameters import StdioParameters
+    SC = importlib.import_module("chuk_mcp.transports.stdio.stdio_client")
+    hv, variant, members = case["handshake"], case["variant"], case["batch"]
+
+    def factory(command, **kw):
+        p = ScriptedProcess([], hold_open=True)
+        orig = p.stdin.send
+
+        async def send(data):
+            await orig(data)
+            for line in data.decode().splitlines():
+                try:
+                    o = json.loads(line)
+                except Exception:
+                    continue
+                if o.get("method") == "initialize":
+                    p.feed((json.dumps({"jsonrpc": "2.0", "id": o["id"], "result": {
+                        "protocolVersion": hv, "capabilities": {}, "serverInfo": {"name": "s", "version": "1"}}}) + "\n").encode())
+        p.stdin.send = send
+        return p
+
+    async def main():
+        got = []
+        with OpenProcessPatch(factory) as patch:
+            params = StdioParameters(command="scripted")
+
+            async def after(read):
+                proc = patch.spawned[0]
+                proc.feed((json.dumps([MEMBERS[k] for k in members]) + "\n").encode())
+                proc.feed((json.dumps(MEMBERS["note"]) + "\n").encode())
+                await asyncio.sleep(0.01)
+                while True:
+                    try:
+                        got.append(read.receive_nowait())
+                    except (anyio.WouldBlock, anyio.EndOfStream, anyio.ClosedResourceError):
+                        break
+                return proc.stdin_bytes()
+            if variant == "with_initialize":
+                async with SC.stdio_client_with_initialize(params, timeout=5.0, supported_versions=[hv]) as (read, write, init):
+                    stdin = await after(read)
+            elif variant == "connect_to_server":
+                from chuk_mcp.client.connection import connect_to_server
+                async with connect_to_server(params) as client:
+                    stdin = await after(client._streams[0])
+            else:
+                from chuk_mcp.transports.stdio.transport import StdioTransport
+                from chuk_mcp.client.client import MCPClient
+                async with StdioTransport(params) as tr:
+                    client = MCPClient(tr)
+                    await client.initialize()
+                    stdin = await after((await tr.get_streams())[0])
+        return got, stdin
+
+    try:
+        (got, stdin), _ = run_virtual(main, max_iterations=300_000)
+    except Exception as e:  # noqa
+        ctx.violation("wrapper_handshake_failed", f"{variant} at {hv}: {e!r}", case)
+        ctx.record(case, shape="crash")
+        return
+    ctx.count("stdio_sessions")
+    got_w = [norm_wire(msg_to_wire(m)) for m in got if not isinstance(m, list)]
+    exp = []
+    if ref_batching(hv):
+        exp += [(norm_wire(MEMBERS[k]), inbound_class(MEMBERS[k]) == "valid") for k in members
+                if inbound_class(MEMBERS[k]) != "invalid"]
+    exp.append((norm_wire(MEMBERS["note"]), True))
+    ok, why = seq_match(got_w, exp)
+    if not ok:
+        mech = "rejected_batch_member_delivered" if not ref_batching(hv) else "valid_member_lost"
+        ctx.violation(mech, f"handshake through {variant} at {hv}: {why}", case)
+    rej = []
+    for l in stdin.split(b"\n"):
+        if l.strip():
+            try:
+                o = json.loads(l)
+            except Exception:
+                continue
+            if isinstance(o, dict) and isinstance(o.get("error"), dict):
+                rej.append(o)
+    want = 0 if ref_batching(hv) else 1
+    if len(rej) != want:
+        ctx.violation("rejection_count", f"handshake through {variant} at {hv}: {len(rej)} rejection errors, expected {want}", case)
+    ctx.record(case, shape=[len(got_w), len(rej)], cls="wrapper_handshake:" + variant,
+               sample={"case": case, "delivered": len(got_w), "rejections": len(rej)})
+
+
 def run(ctx):
     from chuk_mcp.protocol.features.batching import supports_batching, BatchProcessor, should_reject_batch
     from chuk_mcp.protocol.types.versioning import ProtocolVersion
@@ -286,11 +380,21 @@ def run(ctx):
         if ctx.out_of_time("transport"):
             break
         exec_transport(ctx, case)
+    for variant in ("with_initialize", "connect_to_server", "stdio_transport_mcpclient"):
+        for hv in ("2024-11-05", "2025-03-26", "2025-06-18"):
+            for b in (["req", "note"], ["resp", "bad_obj"], []):
+                case = {"handshake": hv, "variant": variant, "batch": b}
+                if ctx.mine():
+                    exec_wrapper_handshake(ctx, case)
     ctx.require_reached("decision_strings")
     ctx.require_reached("stdio_sessions")
 
 
 def replay(ctx, case):
+    if "variant" in case:
+        exec_wrapper_handshake(ctx, case)
+        ctx.record({"x": 1}, shape=1)
+        return
     if "version" in case and "schedule" not in case:
         from chuk_mcp.protocol.features.batching import supports_batching
         from chuk_mcp.protocol.types.versioning import ProtocolVersion
